@@ -51,7 +51,7 @@ pub fn drive(args: &[String]) -> i32 {
         let (counts, other, wb, panics) = hist(&dist, d, n);
         tickets_total += d;
         out.push(json!({"op": "hist", "kind": "binv", "par": [n, a, j], "counts": counts, "other": other, "panics": panics,
-                        "guard_ok": wb == 0 || a == 0 || a == (1 << j), "tickets": d as u64}).to_string());
+                        "guard_ok": wb == 0 || a == 0 || a == (1 << j), "mixed": wb > 0 && (wb as u128) * 2 <= d && a != 0 && a != (1 << j), "words_bad": wb, "tickets": d as u64}).to_string());
     }
     // ---- HIN histograms: every (N, K, n), N <= nmax
     let nmax = if thorough { 16 } else { 13 };
@@ -60,7 +60,7 @@ pub fn drive(args: &[String]) -> i32 {
         let Ok(dist) = Hypergeometric::new(nn, k, s) else { continue };
         let (counts, other, wb, panics) = hist(&dist, d, s);
         tickets_total += d;
-        out.push(json!({"op": "hist", "kind": "hin", "par": [nn, k, s], "counts": counts, "other": other, "panics": panics, "guard_ok": wb == 0, "tickets": d as u64}).to_string());
+        out.push(json!({"op": "hist", "kind": "hin", "par": [nn, k, s], "counts": counts, "other": other, "panics": panics, "guard_ok": wb == 0, "mixed": wb > 0 && (wb as u128) * 2 <= d, "words_bad": wb, "tickets": d as u64}).to_string());
     } } }
     // ---- Zipf with s = 0 is documented to be uniform on 1..n: x = floor(u*n + 1), always accepted (2 words per call)
     for n in 1..=24u64 {
